@@ -20,8 +20,12 @@ mkdir -p "$TMP/clvm_rs"
 cp "$REPO"/wheel/python/clvm_rs/*.py "$REPO"/wheel/python/clvm_rs/*.pyi "$REPO"/wheel/python/clvm_rs/py.typed "$TMP/clvm_rs/" 2>/dev/null || \
     cp "$REPO"/wheel/python/clvm_rs/*.py "$TMP/clvm_rs/"
 cp "$SO" "$TMP/clvm_rs/clvm_rs.abi3.so"
-rm -rf "$STAGE.old.$$"
-[ -d "$STAGE" ] && mv "$STAGE" "$STAGE.old.$$"
-mv "$TMP" "$STAGE"
-rm -rf "$STAGE.old.$$"
+if [ -d "$STAGE" ] && diff -rq -x __pycache__ "$TMP" "$STAGE" >/dev/null 2>&1; then
+    rm -rf "$TMP"          # unchanged: keep the staged copy (other checks may be importing it right now)
+else
+    rm -rf "$STAGE.old.$$"
+    [ -d "$STAGE" ] && mv "$STAGE" "$STAGE.old.$$"
+    mv "$TMP" "$STAGE"
+    rm -rf "$STAGE.old.$$"
+fi
 echo "$STAGE"
